@@ -306,6 +306,15 @@ fn exec(regs: &mut Regs, cx: &mut Cx, op: &Op) -> (String, Vec<usize>, Vec<usize
                 }
             }
         }
+        Op::UMap(i, mop) => {
+            let i = *i;
+            cx.lay = regs.sl[i];
+            cx.base = base_s(&regs.s[i]);
+            let r = with_set!(&mut regs.s[i], b => {
+                ops::umap_op(cx, ops::as_umap(&mut b.c), mop)
+            });
+            (r, vec![], vec![i])
+        }
         Op::Inject(_) | Op::End => unreachable!(),
     }
 }
@@ -318,6 +327,7 @@ fn touched(op: &Op) -> (Vec<usize>, Vec<usize>) {
         Op::Map(i, MapOp::Eq(o)) => (vec![*i, *o], vec![]),
         Op::Map(i, _) => (vec![*i], vec![]),
         Op::Set(i, SetOp::CloneTo(d)) => (vec![], vec![*i, *d]),
+        Op::UMap(i, _) => (vec![], vec![*i]),
         Op::Set(i, SetOp::Eq(o))
         | Op::Set(i, SetOp::Alg(_, o, _))
         | Op::Set(i, SetOp::IsSubset(o))
@@ -359,7 +369,7 @@ fn run(path: &str) -> std::io::Result<()> {
     std::panic::set_hook(Box::new(|_| {}));
     let dummy = parse::CaseCfg { name: "-".into(), m: [0, 0], s: [0, 0], eq: ctl::EqMode::Lawful };
     let mut regs = new_regs(&dummy).unwrap();
-    let zero = Layout { pairs_off: 0, pair_size: 0, total: 0, cap: 0 };
+    let zero = Layout { pairs_off: 0, pair_size: 0, total: 0, cap: 0, val_off: 0 };
     let mut cx = Cx { lay: zero, base: 0, lay2: zero, base2: 0, all_inside: true, buf: BufW::new() };
     for line in rd.lines() {
         let line = line?;
